@@ -123,6 +123,10 @@ func runBin(bin, dir string, env []string, args ...string) CmdResult {
 	// like runCmd, with extra environment
 	old := os.Environ()
 	_ = old
+	if strings.HasSuffix(bin, "swagger-inst") {
+		// the instrumented binary: goroutines a command starts are threads of the cooperative scheduler
+		env = append(append([]string{}, env...), "VERIF_SCHED=1")
+	}
 	return runCmdEnv(dir, 10*time.Minute, env, bin, args...)
 }
 
@@ -133,7 +137,7 @@ func c07Commands(s *Scratch) []c07Cmd {
 	if c07Thorough {
 		nref = 200
 	}
-	specs := map[string]J{"dense": denseSpec(), "rich": richSpec(), "refchains": refChainSpec(nref)}
+	specs := map[string]J{"dense": denseSpec(), "rich": richSpec(), "refchains": refChainSpec(nref), "cover": c07GenCoverSpec()}
 	var out []c07Cmd
 	gen := func(kind, specName string, extra ...string) c07Cmd {
 		return c07Cmd{Name: fmt.Sprintf("generate %s %s [%s]", kind, strings.Join(extra, " "), specName), Run: func(bin, wdir string, env []string) (tree, string) {
@@ -143,7 +147,7 @@ func c07Commands(s *Scratch) []c07Cmd {
 			sp := filepath.Join(wdir, "spec.json")
 			must(os.WriteFile(sp, prettyJSON(specs[specName]), 0o644))
 			args := []string{"generate", kind, "-q", "-f", sp, "-t", app}
-			if kind != "model" && kind != "markdown" {
+			if kind != "model" && kind != "markdown" && kind != "operation" {
 				args = append(args, "--name", "verifapp")
 			}
 			if kind == "markdown" {
@@ -165,6 +169,8 @@ func c07Commands(s *Scratch) []c07Cmd {
 		out = append(out, gen("server", sn), gen("client", sn), gen("model", sn), gen("cli", sn), gen("markdown", sn))
 	}
 	out = append(out, gen("model", "refchains"))
+	// inputs written to reach the map ranges the commands above reach with fewer than two keys (c07cover.go)
+	out = append(out, gen("server", "cover"), gen("client", "cover"), gen("model", "cover"), gen("operation", "dense"), gen("support", "dense"))
 	// the documented custom layout with skip_format on every template: the raw template output, which
 	// goimports would otherwise re-sort and re-format
 	out = append(out, c07Cmd{Name: "generate server -C <documented layout + skip_format> [dense]", Run: func(bin, wdir string, env []string) (tree, string) {
@@ -220,6 +226,69 @@ func c07Commands(s *Scratch) []c07Cmd {
 			v2 = f.Doc
 		}
 	}
+	c1, c2 := c07DiffCoverPair()
+	out = append(out,
+		specCmd("diff txt [cover pair: several added/deleted/changed entries in every compared map]", func(in, o string) []string { return []string{"diff", in, "@in2", "-d", o} }, c1, c2),
+		specCmd("diff json [cover pair: several added/deleted/changed entries in every compared map]", func(in, o string) []string { return []string{"diff", "-f", "json", in, "@in2", "-d", o} }, c1, c2),
+		specCmd("diff json [cover pair, swapped]", func(in, o string) []string { return []string{"diff", "-f", "json", in, "@in2", "-d", o} }, c2, c1),
+		c07Cmd{Name: "generate spec -i input.json [harness-written program: same-named types in two packages, several extensions per parameter/schema]", Run: func(bin, wdir string, env []string) (tree, string) {
+			root := filepath.Join(wdir, "scanprog")
+			_ = os.RemoveAll(root)
+			in := c07ScanProgram(root)
+			outp := filepath.Join(wdir, "out.json")
+			_ = os.Remove(outp)
+			res := runBin(bin, root, env, "generate", "spec", "-q", "-m", "-i", in, "-o", outp, "./...")
+			b, _ := os.ReadFile(outp)
+			if res.Err != nil {
+				return nil, lastLines(res.Out, 4)
+			}
+			return tree{"output": string(b)}, ""
+		}},
+		c07Cmd{Name: "generate spec (no -m) [harness-written program: types discovered from responses and parameters only]", Run: func(bin, wdir string, env []string) (tree, string) {
+			root := filepath.Join(wdir, "scanprog")
+			_ = os.RemoveAll(root)
+			_ = c07ScanProgram(root)
+			outp := filepath.Join(wdir, "out.json")
+			_ = os.Remove(outp)
+			res := runBin(bin, root, env, "generate", "spec", "-q", "-o", outp, "./...")
+			b, _ := os.ReadFile(outp)
+			if res.Err != nil {
+				return nil, lastLines(res.Out, 4)
+			}
+			return tree{"output": string(b)}, ""
+		}},
+	)
+	out = append(out, c07Cmd{Name: "mixin [rich + 4 mixins touching ordered parts and colliding with each other]", Run: func(bin, wdir string, env []string) (tree, string) {
+		files := []string{filepath.Join(wdir, "primary.json")}
+		must(os.WriteFile(files[0], prettyJSON(richSpec()), 0o644))
+		for i := 0; i < 4; i++ {
+			m := J{"swagger": "2.0", "info": J{"title": fmt.Sprintf("mixin %d", i), "version": "1"},
+				"consumes": A{fmt.Sprintf("application/x-m%d", i), "application/xml"}, "produces": A{fmt.Sprintf("text/m%d", i)}, "schemes": A{fmt.Sprintf("ws%d", i)},
+				"tags":  A{J{"name": fmt.Sprintf("m%d", i)}, J{"name": "shared", "description": fmt.Sprintf("from %d", i)}},
+				"paths": J{fmt.Sprintf("/m%d", i): J{"get": J{"operationId": fmt.Sprintf("getM%d", i), "responses": J{"200": J{"description": "ok"}}}}, "/shared": J{"get": J{"operationId": "getShared", "summary": fmt.Sprintf("from %d", i), "responses": J{"200": J{"description": "ok"}}}}},
+				"definitions":         J{fmt.Sprintf("M%d", i): J{"type": "object"}, "Shared": J{"type": "object", "properties": J{fmt.Sprintf("p%d", i): J{"type": "string"}}}},
+				"securityDefinitions": J{fmt.Sprintf("k%d", i): J{"type": "apiKey", "in": "header", "name": "X"}, "sharedKey": J{"type": "apiKey", "in": "query", "name": fmt.Sprintf("q%d", i)}},
+				"security":            A{J{fmt.Sprintf("k%d", i): A{}}}}
+			fp := filepath.Join(wdir, fmt.Sprintf("mixin%d.json", i))
+			must(os.WriteFile(fp, prettyJSON(m), 0o644))
+			files = append(files, fp)
+		}
+		outp := filepath.Join(wdir, "out.txt")
+		_ = os.Remove(outp)
+		res := runBin(bin, wdir, env, append([]string{"mixin", "--ignore-conflicts", "-o", outp}, files...)...)
+		b, _ := os.ReadFile(outp)
+		if res.Err != nil && len(b) == 0 {
+			return nil, lastLines(res.Out, 4)
+		}
+		// the collision report (stderr/stdout of the command) is part of the artefact
+		var rep []string
+		for _, l := range strings.Split(res.Out, "\n") {
+			if i := strings.Index(l, " "); i > 0 && strings.Contains(l, "collision") { // drop the log time stamp
+				rep = append(rep, l[strings.Index(l, "collision"):])
+			}
+		}
+		return tree{"output": string(b), "collisions": strings.Join(rep, "\n")}, ""
+	}})
 	k1, k2 := filepath.Join(RepoDir(), "fixtures/diff/kitchensink.v1.json"), filepath.Join(RepoDir(), "fixtures/diff/kitchensink.v2.json")
 	// a definition graph with definitions no operation uses, referring to each other, each one changed
 	g1, g2 := c07DefGraph(false), c07DefGraph(true)
@@ -317,7 +386,7 @@ func RunC07(tier, replay string) int {
 	instDir := filepath.Join(s.Dir, "inst")
 	t0 := time.Now()
 	ires, err := instrument.Run(instrument.Options{Repo: RepoDir(), OutDir: instDir, VrtSource: filepath.Join(os.Getenv("VERIF_ROOT"), "mc", "rt", "vrt.go.src"),
-		Patterns: []string{"./generator/...", "./codescan/...", "./cmd/swagger/..."}})
+		Patterns: []string{"./generator/...", "./codescan/...", "./cmd/swagger/..."}, Goroutines: true})
 	if err != nil {
 		r.HarnessError("instrumentation failed: %v", err)
 		return r.Finish()
@@ -358,6 +427,16 @@ func RunC07(tier, replay string) int {
 		}
 		cmds = keep
 	}
+	if only := os.Getenv("VERIF_C07_ONLY"); only != "" && replay == "" { // development aid: some commands, part (a) only
+		var keep []c07Cmd
+		for _, c := range cmds {
+			if strings.Contains(c.Name, only) {
+				keep = append(keep, c)
+			}
+		}
+		cmds = keep
+		r.Prop = "C07dev"
+	}
 	if replay != "" {
 		r.Replay = true
 		var rep struct {
@@ -386,16 +465,32 @@ func RunC07(tier, replay string) int {
 		t     tree
 		err   string
 		sites map[int]int // site -> max length seen
+		sched []int       // enabled threads at every scheduling decision of the default schedule
+		tied  []string    // sites ranged with keys that print alike (no canonical order exists)
 	}
 	bases := make([]base, len(cmds))
 	parallel(len(cmds), nw, func(w, i int) {
 		logf := filepath.Join(wdirs[w], "maplog.txt")
 		_ = os.Remove(logf)
-		t, e := cmds[i].Run(instBin, wdirs[w], []string{"VERIF_MAPLOG=" + logf})
+		slog := filepath.Join(wdirs[w], "schedlog.txt")
+		_ = os.Remove(slog)
+		t, e := cmds[i].Run(instBin, wdirs[w], []string{"VERIF_MAPLOG=" + logf, "VERIF_SCHED_LOG=" + slog})
 		bs := base{t: t, err: e, sites: map[int]int{}}
+		if sb, err := os.ReadFile(slog); err == nil {
+			for _, l := range strings.Split(string(sb), "\n") {
+				var site, en, run, ch int
+				if _, err := fmt.Sscanf(l, "%d %d %d %d", &site, &en, &run, &ch); err == nil {
+					bs.sched = append(bs.sched, en)
+				}
+			}
+		}
 		if lb, err := os.ReadFile(logf); err == nil {
 			for _, l := range strings.Split(string(lb), "\n") {
 				var id, n int
+				if _, err := fmt.Sscanf(l, "T %d", &id); err == nil {
+					bs.tied = append(bs.tied, siteByID[id].Pos)
+					continue
+				}
 				if _, err := fmt.Sscanf(l, "%d %d", &id, &n); err == nil && n > bs.sites[id] {
 					bs.sites[id] = n
 				}
@@ -443,7 +538,11 @@ func RunC07(tier, replay string) int {
 			if e == "" {
 				fd = bases[i].t.firstDifference(t)
 			}
-			r.Violate(evid.Violation{Signature: "unowned-nondeterminism | " + cmds[i].Name, What: fmt.Sprintf("%s: two runs with every go-swagger map iterated in the same canonical order give different artefacts (%s): a source of nondeterminism outside the instrumented map ranges (a dependency, time, randomness)", cmds[i].Name, fd), Case: c07Case{Command: cmds[i].Name, Kind: "canonical-repeat"}})
+			tied := ""
+			if len(bases[i].tied) > 0 {
+				tied = fmt.Sprintf("; or the range at %v, whose keys print alike so that no canonical order exists for it", bases[i].tied)
+			}
+			r.Violate(evid.Violation{Signature: "unowned-nondeterminism | " + cmds[i].Name, What: fmt.Sprintf("%s: two runs with every go-swagger map iterated in the same canonical order give different artefacts (%s): a source of nondeterminism outside the instrumented map ranges (a dependency, time, randomness)%s", cmds[i].Name, fd, tied), Case: c07Case{Command: cmds[i].Name, Kind: "canonical-repeat"}})
 		}
 		r.CaseKeyed(fmt.Sprintf("canon|%s|%d", cmds[i].Name, k), map[string]string{"command": cmds[i].Name, "run": "instrumented canonical run repeated"}, true, out)
 	})
@@ -463,6 +562,52 @@ func RunC07(tier, replay string) int {
 			}
 		}
 		r.CaseKeyed("fresh|"+cmds[i].Name, map[string]string{"command": cmds[i].Name, "run": "unmodified binary x3 in fresh processes"}, true, out)
+	}
+
+	// ---- goroutines started by the commands themselves: every schedule with one deviation from the default
+	// one (spawn order, each goroutine running to its end) must give the canonical artefact
+	{
+		goSites, withDecisions, schedRuns := 0, 0, 0
+		for _, st := range ires.Sites {
+			if st.Kind == "go" {
+				goSites++
+			}
+		}
+		type sjob struct {
+			ci      int
+			choices string
+		}
+		var sjobs []sjob
+		for i := range cmds {
+			if bases[i].err != "" || len(bases[i].sched) == 0 {
+				continue
+			}
+			withDecisions++
+			for d, en := range bases[i].sched {
+				for alt := 1; alt < en; alt++ {
+					sjobs = append(sjobs, sjob{i, strings.Repeat("0,", d) + fmt.Sprint(alt)})
+				}
+			}
+		}
+		parallel(len(sjobs), nw, func(w, ji int) {
+			j := sjobs[ji]
+			t, e := cmds[j.ci].Run(instBin, wdirs[w], []string{"VERIF_SCHED_CHOICES=" + j.choices})
+			cs := c07Case{Command: cmds[j.ci].Name, Policy: "schedule " + j.choices, Kind: "command-schedule"}
+			out := "identical"
+			if e != "" {
+				out = "ERROR"
+				r.Violate(evid.Violation{Signature: "schedule-dependent-failure | " + cmds[j.ci].Name, What: fmt.Sprintf("%s: under the goroutine schedule [%s] the command FAILS (%s) while it succeeds under the default schedule", cmds[j.ci].Name, j.choices, e), Case: cs})
+			} else if fd := bases[j.ci].t.firstDifference(t); fd != "" {
+				out = "DIFFERS"
+				r.Violate(evid.Violation{Signature: "schedule-dependent-output | " + cmds[j.ci].Name, What: fmt.Sprintf("%s: the output depends on the order in which the goroutines the command starts are scheduled: schedule [%s] changes %s", cmds[j.ci].Name, j.choices, fd), Case: cs})
+			}
+			r.CaseKeyed(fmt.Sprintf("cmdsched|%s|%s", cmds[j.ci].Name, j.choices), map[string]string{"command": cmds[j.ci].Name, "schedule": j.choices}, true, out)
+			schedRuns++
+		})
+		r.Extra["go_statements_instrumented"] = goSites
+		r.Extra["go_statements_left_alone"] = ires.GoSkipped
+		r.Extra["commands_with_goroutine_scheduling_decisions"] = withDecisions
+		r.Extra["command_schedules_explored(one deviation)"] = len(sjobs)
 	}
 
 	// ---- one site at a time, every alternative order
@@ -583,7 +728,7 @@ func RunC07(tier, replay string) int {
 		}
 		r.CaseKeyed(fmt.Sprintf("order|%s|%s|%s", cmds[j.ci].Name, strings.Join(poss, "+"), j.policy), map[string]string{"command": cmds[j.ci].Name, "site": strings.Join(poss, " + "), "policy": j.policy}, true, out)
 	})
-	if replay == "" {
+	if replay == "" && os.Getenv("VERIF_C07_ONLY") == "" {
 		runC07Concurrency(r, s, tier)
 	}
 	_ = json.Marshal
